@@ -19,12 +19,30 @@ import (
 	"go/token"
 	"os"
 	"path/filepath"
+	"regexp"
 	"strconv"
 	"strings"
 )
 
 const shimPath = "verif/shim/vsync"
 const osShimPath = "verif/shim/vos"
+const atomicShimPath = "verif/shim/vatomic"
+
+// functions of sync/atomic that verif/shim/vatomic provides (keep in sync with its Provided map)
+var vatomicProvided = func() map[string]bool {
+	m := map[string]bool{"Value": true, "Int32": true, "Int64": true, "Uint32": true, "Uint64": true, "Uintptr": true, "Bool": true,
+		"LoadPointer": true, "StorePointer": true, "SwapPointer": true, "CompareAndSwapPointer": true}
+	for _, t := range []string{"Int32", "Int64", "Uint32", "Uint64", "Uintptr"} {
+		for _, op := range []string{"Load", "Store", "Add", "Swap", "CompareAndSwap"} {
+			m[op+t] = true
+		}
+	}
+	return m
+}()
+
+// statCounter: functions that only maintain write-only statistics counters; their atomic
+// operations get no scheduling point (see vatomic)
+var statCounter = regexp.MustCompile(`(?i)bytes(read|written)`)
 
 // identifiers of package os that verif/shim/vos provides (keep in sync with vos.Provided)
 var vosProvided = map[string]bool{"O_RDONLY": true, "O_WRONLY": true, "O_RDWR": true, "O_APPEND": true, "O_CREATE": true,
@@ -44,7 +62,7 @@ func main() {
 		panic(err)
 	}
 	replace := map[string]string{}
-	nGo, nSync, nRange, nOS := 0, 0, 0, 0
+	nGo, nSync, nRange, nOS, nAtomic := 0, 0, 0, 0, 0
 	// pass 1: package-level map variables (syntactic: `var x = make(map[K]V...)`,
 	// `var x map[K]V`, `var x = map[K]V{...}`) - test files excluded
 	pkgMaps := map[string]bool{}
@@ -105,8 +123,8 @@ func main() {
 			p, _ := strconv.Unquote(imp.Path.Value)
 			if p == "sync" {
 				if imp.Name != nil && imp.Name.Name != "sync" {
-					fmt.Fprintf(os.Stderr, "instrument: %s imports sync as %q: unsupported\n", path, imp.Name.Name)
-					os.Exit(1)
+					fmt.Fprintf(os.Stderr, "instrument: %s imports sync as %q: left alone\n", path, imp.Name.Name)
+					continue
 				}
 				imp.Path.Value = strconv.Quote(shimPath)
 				imp.Name = ast.NewIdent("sync")
@@ -138,6 +156,75 @@ func main() {
 				imp.Name = ast.NewIdent("os")
 				changed = true
 				nOS++
+			}
+		}
+		// import "sync/atomic" -> vatomic (operations become scheduling points), only where
+		// every atomic.X the file uses is provided by the shim
+		for _, imp := range f.Imports {
+			p, _ := strconv.Unquote(imp.Path.Value)
+			if p != "sync/atomic" || (imp.Name != nil && imp.Name.Name != "atomic") {
+				continue
+			}
+			ok, uses := true, 0
+			ast.Inspect(f, func(n ast.Node) bool {
+				if se, isSel := n.(*ast.SelectorExpr); isSel {
+					if id, isID := se.X.(*ast.Ident); isID && id.Name == "atomic" && id.Obj == nil {
+						uses++
+						if !vatomicProvided[se.Sel.Name] {
+							ok = false
+						}
+					}
+				}
+				return true
+			})
+			if !ok || uses == 0 {
+				continue
+			}
+			imp.Path.Value = strconv.Quote(atomicShimPath)
+			imp.Name = ast.NewIdent("atomic")
+			changed = true
+			nAtomic++
+			// statistics counters: no scheduling point (by the variable operated on ...)
+			ast.Inspect(f, func(n ast.Node) bool {
+				ce, isCall := n.(*ast.CallExpr)
+				if !isCall || len(ce.Args) == 0 {
+					return true
+				}
+				se, isSel := ce.Fun.(*ast.SelectorExpr)
+				if !isSel {
+					return true
+				}
+				if id, isID := se.X.(*ast.Ident); !isID || id.Name != "atomic" || id.Obj != nil || strings.HasPrefix(se.Sel.Name, "Stat") || strings.HasSuffix(se.Sel.Name, "Pointer") {
+					return true
+				}
+				var arg bytes.Buffer
+				printer.Fprint(&arg, fset, ce.Args[0])
+				if statCounter.MatchString(arg.String()) {
+					se.Sel = ast.NewIdent("Stat" + se.Sel.Name)
+				}
+				return true
+			})
+			// (... and by the enclosing function)
+			for _, d := range f.Decls {
+				fd, isFn := d.(*ast.FuncDecl)
+				if !isFn || fd.Body == nil || !statCounter.MatchString(fd.Name.Name) {
+					continue
+				}
+				ast.Inspect(fd.Body, func(n ast.Node) bool {
+					if se, isSel := n.(*ast.SelectorExpr); isSel {
+						if id, isID := se.X.(*ast.Ident); isID && id.Name == "atomic" && id.Obj == nil {
+							switch {
+							case strings.HasPrefix(se.Sel.Name, "Stat"):
+							case strings.HasPrefix(se.Sel.Name, "Load"), strings.HasPrefix(se.Sel.Name, "Store"), strings.HasPrefix(se.Sel.Name, "Add"),
+								strings.HasPrefix(se.Sel.Name, "Swap"), strings.HasPrefix(se.Sel.Name, "CompareAndSwap"):
+								if !strings.HasSuffix(se.Sel.Name, "Pointer") {
+									se.Sel = ast.NewIdent("Stat" + se.Sel.Name)
+								}
+							}
+						}
+					}
+					return true
+				})
 			}
 		}
 		// go statements
@@ -185,7 +272,7 @@ func main() {
 	if err := os.WriteFile(filepath.Join(*out, "overlay.json"), ov, 0644); err != nil {
 		panic(err)
 	}
-	fmt.Printf("instrument: %d files rewritten (%d sync imports, %d go statements, %d map ranges ordered, %d os imports)\n", len(replace), nSync, nGo, nRange, nOS)
+	fmt.Printf("instrument: %d files rewritten (%d sync imports, %d go statements, %d map ranges ordered, %d os imports, %d atomic imports)\n", len(replace), nSync, nGo, nRange, nOS, nAtomic)
 }
 
 func addImport(f *ast.File, name, path string) {
